@@ -454,7 +454,7 @@ impl Evaluator for CutEval {
 /// switched off), optionally l (pass the depth as a limit too), t w:b:wi:bi (clocks), and one interruption
 /// forced at the K-th leaf evaluation: s<K> a stop (flag cleared), c<K> the game clock (budget 30000 ms, the
 /// clock then jumps 60000 ms), m<K> movetime 30000 with the same jump, k<K> NO time limit and the clock
-/// jumps by 10^10 ms (the search must not care).  RESULT reports cut_loads / cut_reads: how many flag loads /
+/// jumps by 10^10 ms (the search must not care); q = do not record cache writes.  RESULT reports cut_loads / cut_reads: how many flag loads /
 /// clock readings the search had made when the interruption was forced (guarded counters).
 /// The cache is emptied at the start of every line, not between the specs of a line.
 /// Output: the engine's own info/bestmove lines between "BEGIN k" and "END k", plus one
@@ -540,7 +540,8 @@ fn cmd_search() {
             }
             flush(mode, &cur, &mut depth, &mut nodes);
             crate::search::verif::CACHE_OFF.store(off, std::sync::atomic::Ordering::Relaxed);
-            *crate::search::verif::TRACE.lock().unwrap() = Some(Vec::new());
+            // q: quiet — do not record the cache writes (big searches)
+            *crate::search::verif::TRACE.lock().unwrap() = if spec.contains('q') { None } else { Some(Vec::new()) };
             let mut limits = SearchLimits::new().nodes(nodes);
             if limit_depth {
                 limits = limits.depth(depth);
